@@ -55,6 +55,15 @@ def symtab(obj):
     return out
 
 
+def sections_of(obj):
+    out = {}
+    for l in sh(["objdump", "-h", "-w", obj]).split("\n"):
+        m = re.match(r"^\s*\d+\s+(\S+)\s+([0-9a-f]+)\s", l)
+        if m:
+            out[m.group(1)] = int(m.group(2), 16)
+    return out
+
+
 def section_bytes(obj, sec):
     data = {}
     cur = False
@@ -164,16 +173,24 @@ def translate_program(objdir):
         if sec == st_sec and n not in (STATUS_SYM, st_sec) and st_off < v < st_off + 4:
             raise TranslateError("symbol %s overlaps the status word" % n)
 
-    seq = []        # (key=(obj,addr), insn)
+    # every instruction of .text of both objects (a static helper that gcc did not inline is a
+    # local function of self_tests.o; nasm local labels are symbols too); every .text symbol is a
+    # possible call / jump target by name
+    seq = []
     d_asm, d_glue = disasm(asm_o), disasm(glue_o)
     fstart = {}
-    for fn in FUNCS_ASM:
-        ins = function_extent(d_asm, asm_o, fn)
-        fstart[fn] = ("asm_self_tests.o", ins[0]["addr"])
+    for objname, objpath, dis in (("asm_self_tests.o", asm_o, d_asm), ("self_tests.o", glue_o, d_glue)):
+        ins = sorted((i for l in dis.values() for i in l), key=lambda i: i["addr"])
         seq += ins
-    ins = function_extent(d_glue, glue_o, FUNC_GLUE)
-    fstart[FUNC_GLUE] = ("self_tests.o", ins[0]["addr"])
-    seq += ins
+        for n, sec, v, _ in symtab(objpath):
+            if sec == ".text" and n != ".text":
+                fstart.setdefault(n, (objname, v))
+        for sec, f in sections_of(objpath).items():
+            if sec.startswith(".text") and sec != ".text" and f > 0:
+                raise TranslateError("%s has code outside .text (section %s): not translated" % (objname, sec))
+    for fn in FUNCS_ASM + [FUNC_GLUE]:
+        if fn not in fstart:
+            raise TranslateError("function %s not found" % fn)
 
     kept = [i for i in seq if not is_padding(i)]
     index = {}
@@ -242,7 +259,11 @@ def translate_program(objdir):
             m = m[5:]
         if locked and m not in ("cmpxchg", "xchg"):
             raise TranslateError("unsupported locked instruction " + where)
-        if m in ALU and len(opl) == 2:
+        if m in ("test", "cmp") and len(opl) == 2 and reg_of(opl[0]) and reg_of(opl[0])[0] == 8 and \
+                ((reg_of(opl[1]) and reg_of(opl[1])[0] == 8) or imm_of(opl[1]) is not None):
+            cs = "(SReg %s)" % reg_of(opl[1])[1] if reg_of(opl[1]) else "(SImm %d)" % (imm_of(opl[1]) & 0xFF)
+            out.append("IAlu8 %s %s %s" % (ALU[m], reg_of(opl[0])[1], cs))
+        elif m in ALU and len(opl) == 2:
             d, s = opl
             if is_mem(d) and is_mem(s):
                 raise TranslateError("two memory operands " + where)
@@ -294,9 +315,13 @@ def translate_program(objdir):
             out.append("ICmov %s %s %s" % (CC[m[4:]], reg_of(opl[0])[1], reg_of(opl[1])[1]))
         elif m == "jmp" or (m.startswith("j") and m[1:] in CC):
             t = re.match(r"^([0-9a-f]+) <", ops)
-            if not t or i["relocs"]:
+            rl = [r for r in i["relocs"] if r[1] in ("PLT32", "PC32")]
+            if rl and len(rl) == 1 and rl[0][2] in fstart and rl[0][3] in (-4, -4 & 0xFFFFFFFFFFFFFFFF):
+                k = resolve(*fstart[rl[0][2]])          # tail call / jump to a function by name
+            elif t and not i["relocs"]:
+                k = resolve(i["obj"], int(t.group(1), 16))
+            else:
                 raise TranslateError("unsupported jump " + where)
-            k = resolve(i["obj"], int(t.group(1), 16))
             out.append("IJmp %d" % k if m == "jmp" else "IJcc %s %d" % (CC[m[1:]], k))
         elif m == "call":
             rl = [r for r in i["relocs"] if r[1] in ("PLT32", "PC32")]
@@ -307,7 +332,7 @@ def translate_program(objdir):
                 if sym in EXT:
                     out.append("ICallExt %s" % EXT[sym])
                 elif sym in fstart:
-                    out.append("ICall %d" % index[fstart[sym]])
+                    out.append("ICall %d" % resolve(*fstart[sym]))
                 else:
                     raise TranslateError("call to unknown function %s: %s" % (sym, where))
             else:
@@ -329,7 +354,10 @@ def translate_program(objdir):
     # the generic ALU branch did not swallow it (it rejects 64-bit registers)
     labels = []
     for fn, key in fstart.items():
-        labels.append((index[key] if key in index else resolve(*key), fn))
+        try:
+            labels.append((index[key] if key in index else resolve(*key), fn))
+        except TranslateError:
+            pass
     listing = ["%3d  %-22s ; %s:%x  %s %s" % (k, out[k].split()[0], i["obj"], i["addr"], i["mnem"], i["ops"]) for k, i in enumerate(kept)]
     return {"prog": out, "entry": dict((fn, k) for k, fn in labels)[FUNC_GLUE], "labels": sorted(labels),
             "init_status": init_status, "listing": listing,
@@ -372,8 +400,41 @@ def _callee(e):
     return None
 
 
+BOOL_OPS = ("==", "!=", "<", ">", "<=", ">=", "&&", "||")
+
+
+def _rexp(e, var_exp, depth=0):
+    """clang expression -> rexp term (nested tuples); variables through var_exp(name)"""
+    if depth > 40:
+        return ("unknown",)
+    e = _strip(e)
+    k = e.get("kind")
+    v = _intlit(e)
+    if v is not None:
+        return ("lit", v & 0xFFFFFFFF)
+    if k == "BinaryOperator" and e.get("opcode") in BOOL_OPS:
+        return ("bool",)
+    if k == "UnaryOperator" and e.get("opcode") == "!":
+        return ("bool",)
+    if k == "BinaryOperator" and e.get("opcode") == "|" and len(e.get("inner", [])) == 2:
+        return ("or", _rexp(e["inner"][0], var_exp, depth + 1), _rexp(e["inner"][1], var_exp, depth + 1))
+    if k == "BinaryOperator" and e.get("opcode") == "," and len(e.get("inner", [])) == 2:
+        return _rexp(e["inner"][1], var_exp, depth + 1)
+    if k == "ConditionalOperator" and len(e.get("inner", [])) == 3:
+        return ("cond", _rexp(e["inner"][1], var_exp, depth + 1), _rexp(e["inner"][2], var_exp, depth + 1))
+    if k == "CallExpr":
+        c = _callee(e)
+        return ("call", c) if c else ("unknown",)
+    if k == "DeclRefExpr" and e.get("referencedDecl", {}).get("kind") in ("VarDecl",):
+        return var_exp(e["referencedDecl"]["name"], depth + 1)
+    return ("unknown",)
+
+
 def return_shapes(repo, files=("fips/aes_self_tests.c", "fips/sha_self_tests.c")):
-    """-> {function name: ("lits", [ints]) | ("or", [callee names]) | ("unknown", why)}"""
+    """-> {function name: [rexp, ...] (one per return statement) | None (unknown)}.
+    A local int variable is summarised flow-insensitively: the expressions it is assigned
+    (initialiser, `v = e`) and the expressions OR-ed into it (`v |= e`); any other write to it
+    (other compound assignment, ++/--, address taken) makes it unknown."""
     shapes = {}
     for f in files:
         src = os.path.join(repo, f)
@@ -392,52 +453,95 @@ def return_shapes(repo, files=("fips/aes_self_tests.c", "fips/sha_self_tests.c")
                 continue
             name = fd["name"]
             body = [c for c in fd["inner"] if c.get("kind") == "CompoundStmt"][0]
-            rets = [n for n in _walk(body) if n.get("kind") == "ReturnStmt"]
+            nodes = list(_walk(body))
+            rets = [n for n in nodes if n.get("kind") == "ReturnStmt"]
             if not rets:
                 continue
-            lits = [_intlit(r["inner"][0]) if r.get("inner") else None for r in rets]
-            if all(v is not None for v in lits):
-                shapes[name] = ("lits", sorted(set(lits)))
-                continue
-            # shape: every return returns the same local variable, which is only ever
-            # assigned `v = f()` / `v |= g()` at statement level (and may be declared without init)
-            vars_ = set()
-            okshape = True
-            for r in rets:
-                e = _strip(r["inner"][0]) if r.get("inner") else {}
-                if e.get("kind") == "DeclRefExpr":
-                    vars_.add(e["referencedDecl"]["name"])
-                else:
-                    okshape = False
-            if not okshape or len(vars_) != 1:
-                shapes[name] = ("unknown", "return of a non-literal, non-variable expression")
-                continue
-            v = vars_.pop()
-            callees = []
-            for n in _walk(body):
+            local_vars = {n["name"] for n in nodes if n.get("kind") == "VarDecl" and n.get("storageClass") != "static"}
+            inits, ors, bad = {}, {}, set()
+            for n in nodes:
                 k = n.get("kind")
-                if k in ("BinaryOperator", "CompoundAssignOperator") and n.get("opcode") in ("=", "|=") and n.get("inner"):
+                if k == "VarDecl" and n.get("name") in local_vars and n.get("inner"):
+                    ini = [c for c in n["inner"] if c.get("kind", "").endswith(("Expr", "Operator", "Literal"))]
+                    if ini:
+                        inits.setdefault(n["name"], []).append(ini[-1])
+                elif k in ("BinaryOperator", "CompoundAssignOperator") and n.get("inner") and len(n["inner"]) == 2:
                     lhs = _strip(n["inner"][0])
-                    if lhs.get("kind") == "DeclRefExpr" and lhs["referencedDecl"]["name"] == v:
-                        c = _callee(n["inner"][1])
-                        if c is None:
-                            okshape = False
-                        else:
-                            callees.append(c)
-                elif k in ("BinaryOperator", "CompoundAssignOperator", "UnaryOperator") and n.get("inner"):
-                    # any other write to v (+=, ++, &= ...) breaks the shape
-                    lhs = _strip(n["inner"][0])
-                    if lhs.get("kind") == "DeclRefExpr" and lhs["referencedDecl"]["name"] == v and \
-                       (k == "CompoundAssignOperator" or n.get("opcode") in ("++", "--", "&")):
-                        okshape = False
-                elif k == "VarDecl" and n.get("name") == v and n.get("inner"):
-                    c = _callee(n["inner"][-1])
-                    if c is None:
-                        okshape = False
-                    else:
-                        callees.append(c)
-            shapes[name] = ("or", callees) if okshape and callees else ("unknown", "variable %s is not an OR of calls" % v)
+                    if lhs.get("kind") == "DeclRefExpr" and lhs.get("referencedDecl", {}).get("name") in local_vars:
+                        v = lhs["referencedDecl"]["name"]
+                        if k == "BinaryOperator" and n.get("opcode") == "=":
+                            inits.setdefault(v, []).append(n["inner"][1])
+                        elif k == "CompoundAssignOperator" and n.get("opcode") == "|=":
+                            ors.setdefault(v, []).append(n["inner"][1])
+                        elif k == "CompoundAssignOperator":
+                            bad.add(v)
+                elif k == "UnaryOperator" and n.get("opcode") in ("++", "--", "&") and n.get("inner"):
+                    t = _strip(n["inner"][0])
+                    if t.get("kind") == "DeclRefExpr" and t.get("referencedDecl", {}).get("name") in local_vars:
+                        bad.add(t["referencedDecl"]["name"])
+            active = set()
+
+            def var_exp(v, depth):
+                if v in bad or v not in inits or v in active or v not in local_vars:
+                    return ("unknown",)
+                active.add(v)
+                r = ("var", [_rexp(e, var_exp, depth) for e in inits[v]], [_rexp(e, var_exp, depth) for e in ors.get(v, [])])
+                active.discard(v)
+                return r
+            shapes[name] = [_rexp(r["inner"][0], var_exp) if r.get("inner") else ("unknown",) for r in rets]
     return shapes
+
+
+def rexp_coq(e, idx):
+    k = e[0]
+    if k == "lit":
+        return "(ELit %d)" % e[1]
+    if k == "bool":
+        return "EBool"
+    if k == "call":
+        return "(ECall %d%%nat)" % idx[e[1]] if e[1] in idx else "EUnknown"
+    if k == "or":
+        return "(EOr %s %s)" % (rexp_coq(e[1], idx), rexp_coq(e[2], idx))
+    if k == "cond":
+        return "(ECond %s %s)" % (rexp_coq(e[1], idx), rexp_coq(e[2], idx))
+    if k == "var":
+        return "(EVar [%s] [%s])" % ("; ".join(rexp_coq(x, idx) for x in e[1]), "; ".join(rexp_coq(x, idx) for x in e[2]))
+    return "EUnknown"
+
+
+def rexp_vals(e, shapes, depth=0):
+    """the same value-set computation as Model/SelfTest.rexp_vals (used only to choose what to
+    explore; the obligation is checked by Coq) -> sorted list or None"""
+    if depth > 30:
+        return None
+    k = e[0]
+    if k == "lit":
+        return [e[1]]
+    if k == "bool":
+        return [0, 1]
+    if k == "call":
+        l = shapes.get(e[1])
+        if not l:
+            return None
+        vs = [rexp_vals(x, shapes, depth + 1) for x in l]
+        return None if any(v is None for v in vs) else sorted({y for v in vs for y in v})
+    if k in ("or", "cond"):
+        a, b = rexp_vals(e[1], shapes, depth + 1), rexp_vals(e[2], shapes, depth + 1)
+        if a is None or b is None:
+            return None
+        return sorted({x | y for x in a for y in b}) if k == "or" else sorted(set(a) | set(b))
+    if k == "var":
+        if not e[1]:
+            return None
+        i = [rexp_vals(x, shapes, depth + 1) for x in e[1]]
+        o = [rexp_vals(x, shapes, depth + 1) for x in e[2]]
+        if any(v is None for v in i + o):
+            return None
+        acc, os_ = {y for v in i for y in v}, {y for v in o for y in v}
+        for _ in range(len(os_) + 1):
+            acc |= {x | y for x in acc for y in os_}
+        return sorted(acc)
+    return None
 
 
 def err_self_test(repo):
@@ -482,15 +586,7 @@ def generate(objdir, repo):
         shapes, errv, err = {}, 0, str(e)
     names = sorted(shapes)
     idx = {n: k for k, n in enumerate(names)}
-    tab = []
-    for n in names:
-        kind, val = shapes[n]
-        if kind == "lits":
-            tab.append("RLits [%s]" % "; ".join(str(v & 0xFFFFFFFF) for v in val))
-        elif kind == "or" and all(c in idx for c in val):
-            tab.append("ROrCalls [%s]" % "; ".join("%d%%nat" % idx[c] for c in val))
-        else:
-            tab.append("RUnknown")
+    tab = ["RExps [%s]" % "; ".join(rexp_coq(e, idx) for e in shapes[n]) for n in names]
     lines = ["(* GENERATED by tr/selftest.py from the built FIPS objects and fips/*.c — do not edit *)",
              "From Coq Require Import NArith List.", "From ISAL Require Import Model.SelfTest.", "Import ListNotations.",
              "Local Open Scope N_scope.", ""]
@@ -506,11 +602,12 @@ def generate(objdir, repo):
     lines.append("Definition ret_tab : list retshape := [\n  " + ";\n  ".join(tab) + "\n]." if tab else "Definition ret_tab : list retshape := [].")
     lines.append("Definition aes_fn : nat := %d%%nat." % idx.get("_aes_self_tests", 9999))
     lines.append("Definition sha_fn : nat := %d%%nat." % idx.get("_sha_self_tests", 9999))
-    lines.append("Definition aes_returns : option (list N) := ret_values 8 ret_tab aes_fn.")
-    lines.append("Definition sha_returns : option (list N) := ret_values 8 ret_tab sha_fn.")
+    lines.append("Definition aes_returns : option (list N) := ret_values 40 ret_tab aes_fn.")
+    lines.append("Definition sha_returns : option (list N) := ret_values 40 ret_tab sha_fn.")
     info = {"error": err, "n_instr": len(tp["prog"]), "dropped_padding": tp["dropped_padding"], "labels": tp["labels"],
             "listing": tp["listing"], "entry": tp["entry"], "init_status": tp["init_status"], "errv": errv,
-            "shapes": {n: list(shapes[n]) for n in names}, "prog": tp["prog"]}
+            "shapes": {n: shapes[n] for n in names}, "prog": tp["prog"],
+            "aes_values": rexp_vals(("call", "_aes_self_tests"), shapes), "sha_values": rexp_vals(("call", "_sha_self_tests"), shapes)}
     return "\n".join(lines) + "\n", info
 
 
